@@ -513,7 +513,7 @@ def file_cases(ctx, out, per_scheme, n_lines):
                 if has_unmodelled(m):
                     out.unmodelled += 1
                 elif m != i:
-                    fields = [p for l in c["lines"] for f in l.split("\t") for p in [f] + f.split(";")]
+                    fields = [p for l in c["lines"] for f in l.rstrip("\r\n").split("\t") for p in [f] + f.split(";")]
                     if any(colcases.dontcare_numeric(p) or colcases.dontcare_uuid(p) for p in fields):
                         out.dontcare += 1
                     else:
